@@ -145,8 +145,9 @@ func (p *h3peer) serve(conn quic.Connection) {
 			p.writeUni(conn, quicvarint.Append(nil, uint64(0x21+0x1f*i)), true)
 		}
 	}
+	scriptDone := make(chan struct{})
 	if !job.x.CtlLate {
-		go sideStreams()
+		go func() { sideStreams(); close(scriptDone) }()
 	}
 	go func() {
 		for {
@@ -183,7 +184,16 @@ func (p *h3peer) serve(conn quic.Connection) {
 			}
 			go io.Copy(io.Discard, str)
 			if job.x.CtlLate {
-				go sideStreams()
+				go func() { sideStreams(); close(scriptDone) }()
+			}
+			if len(job.x.Script) > 0 {
+				// the response is held back until every scripted event has been delivered (the call would
+				// otherwise be over, and the connection closed, before the interesting order has happened)
+				select {
+				case <-scriptDone:
+				case <-ctx.Done():
+				case <-time.After(3 * time.Second):
+				}
 			}
 			str.SetWriteDeadline(time.Now().Add(15 * time.Second))
 			data := job.rd.Data
